@@ -21,7 +21,7 @@ func init() {
 			"(6) shape coupling: split, maybeSplitChild and the merge step change a node's item count and child count together (truncate i / i+1, insertAt i / i+1, removeAt i / i+1, items and children appended together); (7) length++ exactly when the insert added an item, length-- exactly when the remove found one, Clear zeroes root and length together. " +
 			"NOT decided: equivalence with a sorted set, node occupancy bounds and equal leaf depth, correctness of the iterate state machine for every tree shape and pivot — all data dependent; no sound static argument within reach (stated in DESIGN.md).",
 		Assumptions: []string{"Item.Less is a strict weak order (caller's obligation)"},
-		Floors:      map[string]int{"C03.wrapper-lock": 9, "C03.cow-ownership": 7, "C03.cow-primitives": 4, "C03.scan-entry": 10, "C03.wrapper-scan": 4, "C03.limit": 2, "C03.update": 2, "C03.shape-coupling": 3, "C03.insert-replace": 1, "C03.rebalance-guard": 1, "C03.length": 3},
+		Floors:      map[string]int{"C03.wrapper-lock": 9, "C03.cow-ownership": 7, "C03.cow-primitives": 4, "C03.scan-entry": 10, "C03.wrapper-scan": 4, "C03.limit": 2, "C03.update": 2, "C03.shape-coupling": 3, "C03.insert-replace": 1, "C03.rebalance-guard": 1, "C03.slice-primitives": 8, "C03.length": 3},
 		Run:         runC03,
 	})
 }
@@ -973,30 +973,7 @@ func (x *btCtx) checkShapeAndLength(rel string) {
 				one := func(k string, v int64) linForm {
 					return linForm{coef: map[string]*big.Int{k: big.NewInt(v)}, c: new(big.Int)}
 				}
-				implied := func(target linForm) bool {
-					for _, f := range facts {
-						d := lf(f.X).add(lf(f.Y), -1)
-						var es []linForm // each e means e >= 0
-						switch f.Op {
-						case token.GEQ:
-							es = []linForm{d}
-						case token.GTR:
-							es = []linForm{d.add(lfConst(1), -1)}
-						case token.LEQ:
-							es = []linForm{d.scale(big.NewInt(-1))}
-						case token.LSS:
-							es = []linForm{d.scale(big.NewInt(-1)).add(lfConst(1), -1)}
-						case token.EQL:
-							es = []linForm{d, d.scale(big.NewInt(-1))}
-						}
-						for _, e := range es {
-							if k, isC := target.add(e, -1).isConst(); isC && k.Sign() >= 0 {
-								return true
-							}
-						}
-					}
-					return false
-				}
+				implied := func(target linForm) bool { return factsImplyGE0(facts, target) }
 				leftOK := implied(one(iKey, -1)) // i <= 0
 				if !leftOK && lenLeft != "" {
 					leftOK = implied(one(minKey, 1).add(one(lenLeft, 1), -1))
@@ -1024,6 +1001,9 @@ func (x *btCtx) checkShapeAndLength(rel string) {
 			}
 		}
 	}
+
+	// (6d) the slice primitives every structural operation is built from (items and children: two copies)
+	c.checkBtreeSlicePrimitives(rel)
 
 	// (7) length accounting
 	lengthF := c.mustField(rel, "BTree", "length")
@@ -1151,5 +1131,158 @@ func (x *btCtx) checkShapeAndLength(rel string) {
 			}
 		}
 		c.check(ok && n > 0, "C03.length", "(*BTree).Clear", fn.Pos(), "root = nil and length = 0 together", "Clear does not reset root and length together")
+	}
+}
+
+// checkBtreeSlicePrimitives: insertAt / removeAt / pop / truncate of the items and children slices.
+//   insertAt(i, x): *s = append(*s, nil); the tail [i:] is shifted to [i+1:] unless i is the new last index; (*s)[i] = x
+//   removeAt(i):    returns the old (*s)[i]; [i+1:] is shifted to [i:]; *s = (*s)[:len-1]
+//   pop():          returns the old (*s)[len-1]; *s = (*s)[:len-1]
+//   truncate(i):    *s = (*s)[:i]
+// Decided on the symbolic arguments (linear forms), for both copies, which therefore agree.
+func (c *Ctx) checkBtreeSlicePrimitives(rel string) {
+	noInl := func(*ssa.Function, int) bool { return false }
+	for _, typ := range []string{"items", "children"} {
+		for _, m := range []string{"insertAt", "removeAt", "pop", "truncate"} {
+			fn := c.mustFn(rel, "(*"+typ+")."+m)
+			if fn == nil {
+				continue
+			}
+			cons := "(*" + typ + ")." + m
+			traces, complete := c.Trace(fn, TraceConfig{Inline: noInl})
+			if !complete {
+				c.undecided("C03.slice-primitives", cons, fn.Pos(), "path budget exceeded")
+				continue
+			}
+			sKey := "$" + fn.Params[0].Name()
+			old := "*" + sKey
+			lfOf := func(x *Sym) linForm { return lf(x) }
+			idx := linForm{}
+			if len(fn.Params) > 1 {
+				idx = lfOf(&Sym{Kind: KParam, Ref: fn.Params[1], Typ: fn.Params[1].Type()})
+			}
+			lenOld := lfOf(&Sym{Kind: KOp, Name: "len", Args: []*Sym{{Kind: KInit, Args: []*Sym{{Kind: KParam, Ref: fn.Params[0], Typ: fn.Params[0].Type()}}}}})
+			isNone := func(x *Sym) bool { return x.Kind == KConst && x.Name == "none" }
+			ok, n := true, 0
+			fail := func(t *Trace, msg string) {
+				if ok {
+					ok = false
+					c.violated("C03.slice-primitives", cons, fn.Pos(), msg, c.witness(t, len(t.Events)-1)...)
+				}
+			}
+			for _, t := range traces {
+				if t.End != EndReturn {
+					continue
+				}
+				n++
+				var finalS *Sym
+				var copies []*Event
+				var idxStore *Event
+				for _, e := range t.Events {
+					if e.Kind == EvStore && e.Addr.Key() == sKey {
+						finalS = e.Val
+					}
+					if e.Kind == EvCall && e.Val != nil && e.Val.Name == "builtin:copy" {
+						copies = append(copies, e)
+					}
+					if e.Kind == EvStore && e.Addr.Kind == KIndexAddr && !e.Val.isNilConst() {
+						idxStore = e
+					}
+				}
+				switch m {
+				case "insertAt":
+					if finalS == nil || finalS.Kind != KOp || finalS.Name != "append" || finalS.Args[0].Key() != old {
+						fail(t, "the slice is not extended by one element (`*s = append(*s, nil)`)")
+						continue
+					}
+					app := finalS.Key()
+					if idxStore == nil || idxStore.Addr.Args[0].Key() != app || !lfOf(idxStore.Addr.Args[1]).equal(idx) || idxStore.Val.Key() != "$"+fn.Params[2].Name() {
+						fail(t, "the new element is not stored at the requested index of the extended slice")
+						continue
+					}
+					shifted := false
+					for _, cp := range copies {
+						d, sr := cp.Args[0], cp.Args[1]
+						if d.Kind == KOp && d.Name == "slice" && sr.Kind == KOp && sr.Name == "slice" && d.Args[0].Key() == app && sr.Args[0].Key() == app &&
+							lfOf(d.Args[1]).equal(idx.add(lfConst(1), 1)) && lfOf(sr.Args[1]).equal(idx) && isNone(d.Args[2]) && isNone(sr.Args[2]) {
+							shifted = true
+						}
+					}
+					if !shifted {
+						// allowed only when the index was found to be the last position (index >= len(new) is impossible;
+						// index < len(new) false means index == len(old)+... : nothing to shift)
+						// index >= len(extended) - 1: the new element goes to the last slot
+						lenApp := lfOf(&Sym{Kind: KOp, Name: "len", Args: []*Sym{finalS}})
+						noShiftNeeded := factsImplyGE0(t.factsBefore(len(t.Events)), idx.add(lenApp, -1).add(lfConst(1), 1))
+						if !noShiftNeeded {
+							fail(t, "the elements from the index onwards are not shifted up by one before the new element is stored: the element at the index is overwritten (lost) and the last slot stays nil")
+						}
+					}
+				case "removeAt":
+					want := &Sym{}
+					_ = want
+					r := t.Ret[0]
+					goodRet := r.Kind == KInit && r.Args[0].Kind == KIndexAddr && r.Args[0].Args[0].Key() == old && lfOf(r.Args[0].Args[1]).equal(idx)
+					if goodRet {
+						// read before the tail is pulled back
+						ld, cp := -1, -1
+						for i, e := range t.Events {
+							if e.Kind == EvLoad && e.Res.Key() == r.Key() && ld < 0 {
+								ld = i
+							}
+							if e.Kind == EvCall && e.Val != nil && e.Val.Name == "builtin:copy" && cp < 0 {
+								cp = i
+							}
+						}
+						goodRet = ld >= 0 && (cp < 0 || ld < cp)
+					}
+					if !goodRet {
+						fail(t, "the value returned is not the element that was at the index (read before the tail is pulled back)")
+						continue
+					}
+					shifted := false
+					for _, cp := range copies {
+						d, sr := cp.Args[0], cp.Args[1]
+						if d.Kind == KOp && d.Name == "slice" && sr.Kind == KOp && sr.Name == "slice" && d.Args[0].Key() == old && sr.Args[0].Key() == old &&
+							lfOf(d.Args[1]).equal(idx) && lfOf(sr.Args[1]).equal(idx.add(lfConst(1), 1)) && isNone(d.Args[2]) && isNone(sr.Args[2]) {
+							shifted = true
+						}
+					}
+					if !shifted {
+						fail(t, "the elements after the index are not pulled back by one (copy((*s)[i:], (*s)[i+1:]))")
+						continue
+					}
+					if finalS == nil || finalS.Kind != KOp || finalS.Name != "slice" || finalS.Args[0].Key() != old || !isNone(finalS.Args[1]) || !lfOf(finalS.Args[2]).equal(lenOld.add(lfConst(1), -1)) {
+						fail(t, "the slice is not shortened by exactly one element")
+					}
+				case "pop":
+					r := t.Ret[0]
+					goodRet := r.Kind == KInit && r.Args[0].Kind == KIndexAddr && r.Args[0].Args[0].Key() == old && lfOf(r.Args[0].Args[1]).equal(lenOld.add(lfConst(1), -1))
+					if !goodRet {
+						fail(t, "the value returned is not the last element")
+						continue
+					}
+					if finalS == nil || finalS.Kind != KOp || finalS.Name != "slice" || finalS.Args[0].Key() != old || !isNone(finalS.Args[1]) || !lfOf(finalS.Args[2]).equal(lenOld.add(lfConst(1), -1)) {
+						fail(t, "the slice is not shortened by exactly one element")
+					}
+				case "truncate":
+					var first *Sym
+					for _, e := range t.Events {
+						if e.Kind == EvStore && e.Addr.Key() == sKey {
+							first = e.Val
+							break
+						}
+					}
+					if first == nil || first.Kind != KOp || first.Name != "slice" || first.Args[0].Key() != old || !isNone(first.Args[1]) || !lfOf(first.Args[2]).equal(idx) {
+						fail(t, "the slice is not cut to its first `index` elements")
+					}
+				}
+			}
+			if ok && n > 0 {
+				c.holds("C03.slice-primitives", cons, fn.Pos(), fmt.Sprintf("%d paths", n))
+			} else if ok {
+				c.undecided("C03.slice-primitives", cons, fn.Pos(), "no returning path")
+			}
+		}
 	}
 }
